@@ -9,6 +9,12 @@ SUPPORT = r'''
 /// PartialEq-only (float-like) component
 #[derive(Debug, Clone, Copy, PartialEq, PartialOrd)]
 pub struct NE(pub u8);
+/// generic, PartialEq-only whatever the argument
+#[derive(Debug, Clone, Copy, PartialEq)]
+pub struct Pe<T>(pub T, pub f64);
+/// generic, Eq when the argument is
+#[derive(Debug, Clone, Copy, PartialEq, Eq)]
+pub struct We<T>(pub T);
 pub fn key_eq<T>(_x: &T) -> u8 { 0 }
 pub fn key_ne<T>(_x: &T) -> NE { NE(0) }
 pub fn key_f<T>(_x: &T) -> f32 { 0.0 }
@@ -102,6 +108,34 @@ def programs(ctx):
             item, "<NE>" if generic else "")
         p = E.Prog("p_%04d" % i, text, [], {"describe": "%s  [components %s + %s, must %s]" % (item, c1[1], c2[1], "compile" if must_be_eq else "be refused")}, expect_compile=must_be_eq)
         p.meta["generic"] = generic
+        out.append(p)
+        i += 1
+    # explicit bound(..) lists at every level, on default-compared generic fields: whichever level switches the default `FieldTy: Eq`
+    # bound off (or keeps it with `..`), a PartialEq-only component must still be refused and an Eq one accepted
+    LEVELS = ["field:derive_ex(Eq(bound(%s)))", "field:derive_ex(bound(%s))", "field:eq(bound(%s))", "field:ord(bound(%s))", "variant:derive_ex(Eq(bound(%s)))", "variant:eq(bound(%s))",
+              "type:eq(bound(%s))", "type:ord(bound(%s))", "args:Eq(bound(%s))", "args:shared(%s)"]
+    BS = ["T", "T: Eq", "T, ..", "..", "T: Eq + Copy"]
+    FT = [("Pe<T>", False), ("We<T>", True), ("Option<Pe<T>>", False), ("(T, f32)", False), ("[T; 2]", True), ("Vec<We<T>>", True)]
+    lv = list(itertools.product(LEVELS, BS, FT, ("struct", "tuple", "enum")))
+    if ctx.quick:
+        lv = [q for q in lv if q[0].startswith("field:derive_ex") and q[2][0] == "Pe<T>"] + rng.sample(lv, 120)
+    for (level, b, (fty, fty_eq), shape) in lv:
+        where, a = level.split(":", 1)
+        if where == "variant" and shape != "enum":
+            continue
+        fa = "#[%s] " % (a % b) if where == "field" else ""
+        va = "#[%s] " % (a % b) if where == "variant" else ""
+        ta = "#[%s]\n" % (a % b) if where == "type" else ""
+        args = {"args:Eq(bound(%s))": "Eq(bound(%s)), PartialEq" % b, "args:shared(%s)": "Eq, PartialEq, bound(%s)" % b}.get(level, "Eq, PartialEq")
+        if shape == "struct":
+            item = "pub struct X<T> { pub id: u32, %spub x: %s }" % (fa, fty)
+        elif shape == "tuple":
+            item = "pub struct X<T>(pub u32, %spub %s);" % (fa, fty)
+        else:
+            item = "pub enum X<T> { A, %sB { id: u32, %sx: %s }, C(u8) }" % (va, fa, fty)
+        text = "#[derive_ex::derive_ex(%s)]\n%s%s\n\npub fn need_eq<E: Eq>() {}\npub fn probe() { need_eq::<X<u8>>(); }\npub fn replay(h: &str, b: &[u8]) -> (bool, String) { (true, String::new()) }\n" % (args, ta, item)
+        p = E.Prog("p_%04d" % i, text, [], {"describe": "derive_ex(%s) %s%s  [explicit bounds at %s, field type %s, must %s]" % (args, ta.strip() + " " if ta else "", item, where, fty, "compile" if fty_eq else "be refused")}, expect_compile=fty_eq)
+        p.meta["generic"] = True
         out.append(p)
         i += 1
     for (lst, item, must) in EXTRA:
